@@ -877,8 +877,10 @@ class UniformMeshGeometryConverter(GeometryConverter):
                         if sourceBlockVal is None:
                             continue
                         if paramMapper.isPeak[paramName]:
+                            # the running maximum starts from the first overlapped value, not from 0.0
                             updatedDestVals[paramName] = max(
-                                sourceBlockVal, updatedDestVals[paramName]
+                                sourceBlockVal,
+                                updatedDestVals.get(paramName, sourceBlockVal),
                             )
                         else:
                             if paramMapper.isVolIntegrated[paramName]:
